@@ -16,4 +16,4 @@ PY
 # code-level stage: serialise the current sources into Gen/Cir.lean and build the refinement proofs
 python3 tools/cir.py >/dev/null
 python3 -c "import sys; sys.path.insert(0, 'tools'); import pipeline; pipeline.write_inst_acc(); pipeline.write_inst_init(); pipeline.write_inst_legacy()"
-(cd lean && lake build O1722.Refine.Props O1722.Refine.PropsVss O1722.Refine.PropsCan O1722.Refine.CanLen O1722.Refine.VssCalc O1722.Gen.InstAcc O1722.Gen.InstInit O1722.Gen.InstLegacy)
+(cd lean && lake build O1722.CSem.Frame O1722.Refine.Props O1722.Refine.PropsVss O1722.Refine.PropsCan O1722.Refine.CanLen O1722.Refine.VssCalc O1722.Gen.InstAcc O1722.Gen.InstInit O1722.Gen.InstLegacy)
